@@ -43,10 +43,11 @@ impl FdBackend {
         Ok(Self { file, len })
     }
 
-    pub(crate) fn write(&self, offset: usize, data: &[u8]) {
+    pub(crate) fn write(&self, offset: usize, data: &[u8]) -> std::io::Result<()> {
         use std::os::unix::fs::FileExt;
-        // pwrite doesn't move the file cursor
-        let _ = self.file.write_at(data, offset as u64);
+        // pwrite doesn't move the file cursor; a failed or short write is an error,
+        // not something to acknowledge
+        self.file.write_all_at(data, offset as u64)
     }
 
     pub(crate) fn read(&self, offset: usize, dest: &mut [u8]) {
@@ -76,7 +77,7 @@ pub(crate) enum StorageImpl {
 }
 
 impl StorageImpl {
-    pub(crate) fn write(&self, offset: usize, data: &[u8]) {
+    pub(crate) fn write(&self, offset: usize, data: &[u8]) -> std::io::Result<()> {
         match self {
             StorageImpl::Mmap(mmap) => {
                 debug_assert!(offset <= mmap.len());
@@ -85,6 +86,7 @@ impl StorageImpl {
                     let ptr = mmap.as_ptr() as *mut u8;
                     std::ptr::copy_nonoverlapping(data.as_ptr(), ptr.add(offset), data.len());
                 }
+                Ok(())
             }
             StorageImpl::Fd(fd) => fd.write(offset, data),
         }
@@ -181,7 +183,7 @@ impl SharedMmap {
         }))
     }
 
-    pub(crate) fn write(&self, offset: usize, data: &[u8]) {
+    pub(crate) fn write(&self, offset: usize, data: &[u8]) -> std::io::Result<()> {
         // Bounds check before raw copy to maintain memory safety
         debug_assert!(offset <= self.storage.len());
         debug_assert!(self.storage.len() - offset >= data.len());
@@ -193,7 +195,7 @@ impl SharedMmap {
             data,
             matches!(self.storage, StorageImpl::Mmap(_)),
         );
-        self.storage.write(offset, data);
+        self.storage.write(offset, data)?;
         #[cfg(walrus_verif)]
         crate::wal::verif::after_store();
 
@@ -202,6 +204,7 @@ impl SharedMmap {
             .unwrap_or_else(|_| std::time::Duration::from_secs(0))
             .as_millis() as u64;
         self.last_touched_at.store(now_ms, Ordering::Relaxed);
+        Ok(())
     }
 
     pub(crate) fn read(&self, offset: usize, dest: &mut [u8]) {
